@@ -9,6 +9,8 @@ import os
 import re
 import types
 
+from .env import is_synced as _is_synced
+
 _LOCK_RE = re.compile(r"owner=(\d+) count=(\d+)")
 _SKIP_CLASS_ATTRS = {"__dict__", "__weakref__", "__doc__", "__module__", "__abstractmethods__",
                      "_abc_impl", "__parameters__", "__orig_bases__", "__annotations__",
@@ -74,10 +76,10 @@ class Canon:
             for k, v in o.items():
                 if isinstance(k, str) and ("/scverif-" in k) and k not in self.paths:
                     continue  # entry of a file that is not part of this world (inert)
-                if isinstance(k, int) and not isinstance(k, bool) and hasattr(v, "_load") \
+                if isinstance(k, int) and not isinstance(k, bool) and _is_synced(v) \
                         and id(v) not in self.own and k == id(v):
                     continue  # id()-keyed entry of an object from another history
-                if isinstance(k, int) and not isinstance(k, bool) and hasattr(v, "_load") and k == id(v):
+                if isinstance(k, int) and not isinstance(k, bool) and _is_synced(v) and k == id(v):
                     kk = ("idkey",)
                 else:
                     kk = self.walk(k)
